@@ -122,6 +122,8 @@ pub struct EnvConfig {
     pub stall_after: Option<usize>,
     /// Grant sizes offered when stalled (besides "unlimited")
     pub grant_menu: Vec<usize>,
+    /// once stalled the transport never takes another byte (a dead peer): no grant is offered
+    pub no_grants: bool,
     /// faults that may be injected at any scheduling point (each at most once)
     pub faults: Vec<FaultKind>,
     /// deliver exactly this many server bytes, then make the fault visible (crash-point sweep)
@@ -150,6 +152,7 @@ impl Default for EnvConfig {
             write_cut_limit: 3,
             stall_after: None,
             grant_menu: vec![],
+            no_grants: false,
             faults: vec![],
             crash_after_inbound: None,
             fail_write_call: None,
@@ -453,7 +456,7 @@ impl St {
                     v.push(Choice::Env(EnvAction::Fault(kind.clone()), format!("crash({:?})", kind)));
                 }
             }
-            if self.tr.capacity == Some(0) {
+            if self.tr.capacity == Some(0) && !self.cfg.no_grants {
                 v.push(Choice::Env(EnvAction::Grant(usize::MAX), "grant(all)".into()));
                 for g in &self.cfg.grant_menu {
                     v.push(Choice::Env(EnvAction::Grant(*g), format!("grant({})", g)));
@@ -932,6 +935,12 @@ impl World {
         if let Some(sr) = &st.tr.set_readiness {
             let _ = sr.set_readiness(r);
         }
+    }
+
+    /// The transport stops accepting writes from now on (until a grant, if grants are offered).
+    pub fn stall_transport(&self) {
+        let mut st = self.lock();
+        st.tr.capacity = Some(0);
     }
 
     pub fn tr_dropped(&self) {
